@@ -421,7 +421,7 @@ func (w *World) logND(label, kind string, terms []*Term, conc int64) {
 		// model replay: pin the values to the recorded vector
 		if w.forcedPos < len(w.forced) && w.forced[w.forcedPos].Label == label {
 			fv := w.forced[w.forcedPos]
-			switch kind {
+			switch strings.TrimPrefix(kind, "env-") {
 			case "bytes":
 				for i, t := range terms {
 					var b uint64
@@ -473,7 +473,7 @@ func (w *World) modelVector(extra ...*Term) ([]ndValue, Result) {
 	k := 0
 	for _, e := range w.ndlog {
 		nv := ndValue{Label: e.Label, Kind: e.Kind}
-		switch e.Kind {
+		switch strings.TrimPrefix(e.Kind, "env-") {
 		case "choose":
 			nv.Int = e.conc
 		case "bytes":
@@ -493,7 +493,7 @@ func (w *World) modelVector(extra ...*Term) ([]ndValue, Result) {
 			k++
 			if v.w <= 64 {
 				nv.Int = int64(v.k)
-				if e.Kind == "i64" || e.Kind == "range" {
+				if strings.TrimPrefix(e.Kind, "env-") == "i64" || e.Kind == "range" {
 					nv.Int = sext64(v.k, v.w)
 				}
 			}
